@@ -4,6 +4,7 @@ CONSTANT PostSteps = 1
 CONSTANT MaxLim = 3
 CONSTANT WithDefault = FALSE
 CONSTRAINT Bounded
+VIEW View
 INVARIANT TypeOK
 INVARIANT Protocol
 INVARIANT MaskSound
